@@ -11,6 +11,7 @@ mod oracles;
 mod profiles;
 mod rng;
 mod runner;
+mod selftest;
 mod xproc;
 
 #[global_allocator]
@@ -77,6 +78,7 @@ fn main() {
             };
             std::process::exit(code);
         }
+        "selftest" => std::process::exit(selftest::main(&args[2..])),
         "replay" => std::process::exit(coord::replay_main(&args[2])),
         "check" => {
             // check <prop> <quick|thorough>
